@@ -239,6 +239,14 @@ impl<'a> Runner<'a> {
     /// Execute one op of a history on the device.  Returns false when the history must stop
     /// (a panic or hang was recorded).
     fn exec<const P: u8, const G: i8>(&mut self, dev: &mut Dev<P, G>, op: &Op) -> bool {
+        self.out.sync = true;
+        crate::cli::watch_begin(&self.out.path, &serde_json::to_string(op).unwrap_or_default(), 20_000);
+        let r = self.exec_op(dev, op);
+        crate::cli::watch_end();
+        r
+    }
+
+    fn exec_op<const P: u8, const G: i8>(&mut self, dev: &mut Dev<P, G>, op: &Op) -> bool {
         match op {
             Op::Reset { .. } => unreachable!(),
             Op::Checkpoint => {
@@ -765,7 +773,7 @@ fn run_typed<const P: u8, const G: i8>(out: &mut TraceWriter, ops: &[Op], seed: 
     let ev = json!({"ev": "reset", "region": region, "front": front, "classc": *classc as u8,
         "maxpw": P, "gain": G, "board": board, "bias_sb": bias_sb, "bias_retries": bias_retries,
         "lead": lead, "buffer": buffer, "offset": offset, "duration": duration,
-        "seeded": session.is_some() as u8});
+        "seeded": session.is_some() as u8, "cert": cfg!(feature = "cert") as u8});
     r.emit(&mut dev, ev, Some(&ops[0]));
     let mut executed: Vec<Op> = vec![ops[0].clone()];
     let mut steps = 0usize;
@@ -2010,7 +2018,7 @@ pub fn vh_certwalk(a: &Args) {
         vec![0x09], vec![0x09, 1], vec![0x20], vec![0x7f], vec![0x55], vec![0x00], vec![0x03, 1], vec![0x05, 1],
         vec![0x04, 1, 0x07, 2], vec![0x04, 9, 0x06, 3], vec![0x09, 0x7f], vec![0x01, 0x02],
     ];
-    for n in [40usize, 50, 51, 52, 100, 200, 220, 241, 242] {
+    for n in [40usize, 50, 51, 52, 100, 200, 220, 240, 241] {
         let mut v = vec![0x08u8];
         v.extend((0..n).map(|i| (i * 7) as u8));
         payloads.push(v);
@@ -2023,7 +2031,13 @@ pub fn vh_certwalk(a: &Args) {
         for front in &fronts {
             let (fr, classc) = match front.as_str() { "nb" => ("nb", false), "async" => ("async", false), _ => ("async", true) };
             for (pi, pl) in payloads.iter().enumerate() {
-                for variant in 0..(if classc { 3 } else { 2 }) {
+                // variants: 0 unconfirmed / 1 confirmed certification downlink in a receive window, 2 (Class C) while
+                // listening outside a procedure, 3 after the network has commanded a lower TX power and a frame-type
+                // override (the handler's own transmissions must respect both)
+                for variant in [0usize, 1, 2, 3] {
+                    if variant == 2 && !classc {
+                        continue;
+                    }
                     let ops = vec![
                         Op::Reset { region: region.clone(), front: fr.into(), classc, board: 0, bias_sb: 0, bias_retries: 1,
                                     lead: 10, buffer: 10, offset: 0, duration: 500, session: None },
@@ -2043,6 +2057,13 @@ pub fn vh_certwalk(a: &Args) {
                         let net = Net { nwk, app, addr: ad, sent: vec![] };
                         let n = view.fcnt_down.map(|x| x + 1).unwrap_or(0);
                         let f = Frame { bytes: net.data(n, variant == 1, false, &[], 224, &pl, false, false), snr: 3, intent: format!("cert:{pi}") };
+                        if idx == 1 && variant == 3 {
+                            // LinkADRReq: keep the data rate, TXPower 5, all channels on; then TxFramesCtrlReq(confirmed)
+                            // travels in the same frame on FPort 224
+                            let adr = [0x03u8, 0xf5, 0xff, 0xff, 0x60];
+                            let b = net.data(n, false, false, &adr, 224, &[0x07, 0x02], false, false);
+                            plan.rx1.push(Frame { bytes: b, snr: 3, intent: "cert:power+override".into() });
+                        }
                         if idx == 2 {
                             if variant == 2 {
                                 return Some(Op::Rxc { frames: vec![f] });
